@@ -42,6 +42,9 @@ RULE = (
     ") are part of the corpus."
     " Passive attacks on clients that are 25 hours / 40 days old (virtual time): discovery pr"
     "obes answered as engine B, everything else left alone."
+    ' Unauthenticated Reports whose binding value is a nested Response/Report PDU with an err'
+    'or-status (every usmStats OID and a foreign one). Lenient walk and multiwalk are among t'
+    'he tampered walks.'
 )
 ASSUMPTIONS = [
     "the attacker knows the wire format and everything on the wire, but none of the victim's keys",
